@@ -70,7 +70,7 @@ pub fn run(run: &Run) {
     );
     run.assume("generator soundness: ids <= 4 bytes without NUL, names/units/strings without NUL, value variant matches type info, NOAR/verbose/LEN consistent (DESIGN.md 3.1)");
     run.regressions(&replay);
-    run.random("roundtrip", run.cases(200_000, 3_000_000), 0.3, strategy, check);
+    run.random("roundtrip", run.cases(300_000, 4_000_000), 0.3, strategy, check);
 }
 
 pub fn replay(_section: &str, case: &Json) -> Option<CheckResult> {
